@@ -22,8 +22,9 @@ are claimed in MANIFEST.json (C15 at level `other`, the rest at level `proof`).
   all of C17's formulation theorems, all textbook equalities of C14, naturality for CG and CBLDM, scaling for multifit,
   and the sharp approximation constants 4/3 − 1/(3k) for LPT and for Karmarkar–Karp (`LPT43`, `KK43`), 2/3·(OPT−1) and
   3/4·OPT − 4 for the covering algorithms (`Cover23`, `Cover34`: parametrised staircase weightings found by the provers).
-* Still only certified (verified oracle on every run, no theorem): LPT's exact max-min ratio (3k−1)/(4k−2) for k ≥ 5 when
-  items below OPT/8 exist (proved: k ≤ 4; every k without such items; 2k/(3k−1) always), multifit's 1.22 (5/4 proved), C09's absolute ⌊1.7·OPT⌋ (+1 proved) and 11/9 (3/2 absolute, 5/4·OPT + 1, and 11/9
+* LPT's exact max-min ratio (3k−1)/(4k−2) (Csirik–Kellerer–Woeginger) is proved **for every k** (`MaxMin5.greedy_maxmin`; the "mixed case" that
+  `MaxMin3` / `MaxMin4` left open for k ≥ 5 is closed by a heavy-bin weighting, `mixed_all`): C08 is PARTIAL only for multifit's constant.
+* Still only certified (verified oracle on every run, no theorem): multifit's 1.22 (5/4 proved), C09's absolute ⌊1.7·OPT⌋ (+1 proved) and 11/9 (3/2 absolute, 5/4·OPT + 1, and 11/9
   outside one size range of the last bin's first item proved); anything about CBC; CPython set order;
   interpreter-level state (C15).  Items in progress are listed per property below as `partial`.
 * One more known finding: **KF5** (C11): with `use_heuristic_3=True` and `MinimizeLargestSum`, when heuristic 3 fires on
@@ -40,8 +41,12 @@ are claimed in MANIFEST.json (C15 at level `other`, the rest at level `proof`).
   of `find_bin_completions` calls against `BC.binCompletionT`, `binCompletionT_fst`), complete Karmarkar–Karp (every popped
   heap against `ckkFT`, `ckkFT_fst`), snp and rnp (every call of the two-way solver / bounded generator against `snpT`,
   `rnpFT`; `snpT_fst`, `rnpFT_fst`); complete greedy and CBLDM at every interruption point under a counting clock (C11).
-* One more repair, **F12** (objectives negated numpy unsigned sums with wrap-around: C20, and dp in C07), and one more known
-  finding, **KF7** (C07: ilp on numpy arrays of unsigned integers fails inside python-mip) — section 9; six input presentations instead of five (`array_valueof`), arrays of 32- and 64-bit signed and unsigned types.
+* Three more repairs: **F12** (objectives negated numpy unsigned sums with wrap-around: C20, and dp in C07); **F13** (`partition()` / `pack()` handed numpy
+  items to the algorithms as numpy scalars, whose sums wrap around in the array's own type: multifit returned 5 bins for `numbins=2` on a uint8 array, dp / cg /
+  snp / rnp non-optimal partitions, bin completion overfull bins, ilp `OverflowError` on unsigned arrays — the former known finding KF7; arrays are now
+  normalised at the adaptor); **F14** (ilp with copies other than 1 returned infeasible or sub-optimal answers as optimal on 1–2 % of small inputs: CBC's
+  preprocessing, now switched off; earlier rounds had classified these as "solver faults" and not counted them — that allowance is gone) — section 9.
+  Seven input presentations (`array_valueof`, `uarray`, `narrow`): arrays of 8-, 16-, 32- and 64-bit signed and unsigned types.
 * The harness side of the correspondence runs the implementation calls in a pool of forked worker processes
   (`engine.impl_map`); C15's histories run in the main interpreter.
 * The output types of `prtpy/outputtypes.py` are part of the model, not of the harness: every driver request carries
